@@ -10,6 +10,10 @@ from ..core import CTX, attempt, held, violated, same_array, short, scribble
 from .. import gen, contracts
 
 PROP = "C01"
+LEVEL_TEXT = 'Runtime monitoring of constructions and read-backs: ~10^4 (quick) / 10^5 (thorough) generated arrays over every empty-row placement, 11 dtypes, 9 constructor forms (incl. Fortran-ordered and strided inputs), each read back through every accessor the statement names plus the geometry object; mismatching buffers must be refused; results of conversions are overwritten to expose shared buffers. Exploration: held = held on these executions.'
+LEVEL_NOTE = "trusts numpy 2.x, CPython (copy.copy, slice semantics, big ints) and the reference model in rtmon/props/c01.py; decides the executions it produces, nothing more"
+TECHNIQUE = 'runtime monitoring: reference-model oracle (generating rows, itertools.accumulate geometry) at the API boundary + icontract post-condition on the prefix-sum geometry'
+DESIGN_REF = "DESIGN.md sections 0, 5 (C01), 7"
 RULE = ("case = (row lengths, dtype, value class, constructor form, flat values); every case is read back through len/size/"
         "shape/lengths/dtype/iter/tolist/ravel/astype/to_numpy_array/save+load and the geometry object; size-mismatching "
         "buffers must be rejected; distinct = hash of the case; non-trivial = at least 2 rows and at least one cell")
